@@ -304,39 +304,65 @@ def rule_c13_r4(model: Model) -> RuleResult:
         r.fail(f.qualname, 'conditions not buffered', f.loc(lp.ast), "a Condition annotation is not collected for application")
     # (2) after the loop: the buffered conditions are applied before returning
     post = [n for n in cfg.live_nodes() if lp.ast not in n.loop_of]
-    flush_all = flush_one = None
+    rets = [n for n in post if n.kind == 'return']
+    flush_nodes: t.List[Node] = []
+    has_all = has_one = False
+    helper_ok: t.Optional[bool] = None
     for n in post:
         for root in node_exprs(n):
             for c in walk_no_nested(root):
-                if isinstance(c, ast.Call) and isinstance(c.func, ast.Attribute) and c.func.attr == '_converter':
+                if not isinstance(c, ast.Call):
+                    continue
+                if isinstance(c.func, ast.Attribute) and c.func.attr == '_converter':
                     recv = unparse(c.func.value)
                     if 'Condition.all(*' in recv:
-                        flush_all = n
+                        has_all = True
+                        flush_nodes.append(n)
                     elif re.match(r'^\w+\[0\]$', recv):
-                        flush_one = n
-    rets = [n for n in post if n.kind == 'return']
+                        has_one = True
+                        flush_nodes.append(n)
+                else:
+                    q = model.resolve(c.func, f.module, f)
+                    g = model.functions.get(q or '')
+                    if g is not None and g.cls is None and any(nz.expr(a, n).startswith('ACC') or unparse(a) == 'conditions' for a in c.args):
+                        # the flush is delegated to a helper: it must apply all() to several conditions, the single one otherwise,
+                        # and hand back its input unchanged only for an empty buffer
+                        gcfg = cfg_of(model, g)
+                        gnz = Normalizer(model, g, gcfg, param_map={p_: f'${p_}' for p_ in g.params})
+                        buf = g.params[1] if len(g.params) > 1 else None
+                        forms = {gnz.expr(x.ast.value, x) for x in gcfg.live_nodes() if x.kind == 'return' and x.ast is not None and x.ast.value is not None}
+                        want_all = any(re.match(r'^pane\.annotations\.Condition\.all\(\*\$%s\)\._converter\(\$%s, handlers=\$handlers\)$' % (buf, g.params[0]), x) for x in forms)
+                        want_one = any(re.match(r'^\$%s\[0\]\._converter\(\$%s, handlers=\$handlers\)$' % (buf, g.params[0]), x) for x in forms)
+                        glits = {gnz.literal(x.ast, x)[0] for x in gcfg.nodes if x.kind == 'cond'}
+                        ident = [x for x in gcfg.live_nodes() if x.kind == 'return' and x.ast is not None and x.ast.value is not None
+                                 and gnz.expr(x.ast.value, x) == f'${g.params[0]}']
+                        ident_ok = all(any(a.kind == 'cond' and gnz.literal(a.ast, a)[0] == f'TRUTHY(${buf})'
+                                           and a.edge('F' if gnz.literal(a.ast, a)[1] else 'T')
+                                           and gcfg.edge_dominates(a, 'F' if gnz.literal(a.ast, a)[1] else 'T', x) for a in gcfg.nodes) for x in ident)
+                        helper_ok = bool(want_all and want_one and ident_ok and any(re.match(r'^1 < len\(', x) for x in glits) and len(forms) == 3)
+                        has_all = has_all or want_all
+                        has_one = has_one or want_one
+                        flush_nodes.append(n)
+                        r.analysed.add(g.qualname)
     r.instances += 1
-    if flush_all is None or flush_one is None or not rets:
+    if not flush_nodes or not has_all or not has_one or not rets or helper_ok is False:
         r.fail(f.qualname, 'no final flush of the condition buffer', f.loc(),
-               "conditions buffered at the end of the annotation list are never applied: Annotated[int, Positive] accepts -1")
+               "conditions buffered at the end of the annotation list are never applied (or not all of them): Annotated[int, Positive] accepts -1")
     else:
-        # reaching the return with a non-empty buffer must pass through one of the two flushes
+        # reaching the return with a non-empty buffer must pass through a flush
         ok = True
+        empty_edges = []
+        for a in cfg.nodes:
+            if a.kind == 'cond' and lp.ast not in a.loop_of:
+                text, pos = nz.literal(a.ast, a)
+                if text.startswith('TRUTHY(') and 'conditions' in unparse(a.ast):
+                    empty_edges.append((a.id, 'F' if pos else 'T'))
         for rn in rets:
-            reach = cfg.reachable()
-            # remove both flush nodes: the return must then be reachable only through the 'buffer empty' edge
-            empty_edges = []
-            for a in cfg.nodes:
-                if a.kind == 'cond' and lp.ast not in a.loop_of:
-                    text, pos = nz.literal(a.ast, a)
-                    if text.startswith('TRUTHY(') and 'conditions' in unparse(a.ast):
-                        empty_edges.append((a.id, 'F' if pos else 'T'))
             seen = {lp.id}
             stack = [m for m in lp.edge('F')]
-            # walk from the loop exit without using flush nodes nor the 'buffer empty' edges
             while stack:
                 x = stack.pop()
-                if x.id in seen or x is flush_all or x is flush_one:
+                if x.id in seen or any(x is fl for fl in flush_nodes):
                     continue
                 seen.add(x.id)
                 for (lb, y) in x.succ:
@@ -352,7 +378,7 @@ def rule_c13_r4(model: Model) -> RuleResult:
                    "some path returns the converter while conditions are still buffered (they are dropped)")
     r.instances += 1
     lits = {nz.literal(n.ast, n) for n in cfg.nodes if n.kind == 'cond'}
-    if any(re.match(r'^1 < len\(', a) for a, _p in lits):
+    if any(re.match(r'^1 < len\(', a) for a, _p in lits) or helper_ok:
         r.ok()
     else:
         r.fail(f.qualname, 'no >1 test', f.loc(), "several conditions on one annotation are not combined with Condition.all")
